@@ -65,8 +65,12 @@ def _convertCFF2ToCFF(cff, otFont):
     defaults = buildDefaults(privateDictOperators)
     order = buildOrder(privateDictOperators)
     for fd in fdArray:
-        fd.setCFF2(False)
+        # Load the Private DICT and its Subrs INDEX while they are still
+        # read in the CFF2 layout; both are loaded lazily.
         privateDict = fd.Private
+        getattr(privateDict, "Subrs", None)
+        fd.setCFF2(False)
+        privateDict._isCFF2 = False
         privateDict.order = order
         for key in order:
             if key not in privateDict.rawDict and key in defaults:
